@@ -23,7 +23,7 @@ import (
 // drop/buffer outcome of each span on A.
 
 type c16Op struct {
-	Op  string `json:"op"` // arr | stress | flushup | flushpeer
+	Op  string `json:"op"` // arr | probe | stress | flushup | flushpeer
 	Tid int    `json:"tid,omitempty"`
 	Key int    `json:"key,omitempty"`
 	Ds  int    `json:"ds,omitempty"`
@@ -65,6 +65,9 @@ func c16Gen(r *rand.Rand, tier string, i int) any {
 	}
 	for k := 0; k < nops; k++ {
 		switch x := r.Intn(100); {
+		case x < 12:
+			// a probe from the other node arrives at A's peer router (most interesting while A is stressed)
+			in.Ops = append(in.Ops, c16Op{Op: "probe", Tid: r.Intn(nt)})
 		case x < 68:
 			// keys/datasets mostly equal so that several spans share one batch (the first event decides the destination)
 			key, ds := 0, 0
@@ -149,7 +152,8 @@ func c16Run(raw json.RawMessage) (Case, error) {
 	var ops, events, human []string
 	sent := map[int64]map[string]any{}
 	stressed := false
-	probeMade, lateAfterRelief := false, false
+	probeMade, lateAfterRelief, probeAtStressed := false, false, false
+	var probeHandled []string
 	decidedStress := map[int]bool{}
 	sid := int64(10)
 	upOrigin, peerOrigin := "A/upstream", "A/peer"
@@ -182,6 +186,32 @@ func c16Run(raw json.RawMessage) (Case, error) {
 			doFlush(false)
 			ops = append(ops, "FlushPeer")
 			human = append(human, "dispatch peer batches")
+		case "probe":
+			if o.Tid < 0 || o.Tid >= len(in.Tids) || o.Key < 0 || o.Key > 1 || o.Ds < 0 || o.Ds > 1 {
+				return Case{}, fmt.Errorf("C16: bad probe")
+			}
+			sid++
+			data := map[string]any{"trace.trace_id": in.Tids[o.Tid], "sid": sid, "name": fmt.Sprintf("probe-%d", sid),
+				"meta.refinery.probe": true, "meta.stressed": true}
+			sent[sid] = data
+			spans0 := a.Counter("peer_router_span")
+			code, body := a.PostPeerBatch(c16Ds[o.Ds], c16Keys[o.Key], []crossBatchEvent{{SampleRate: 1, Data: data}})
+			if code != 200 {
+				return Case{}, fmt.Errorf("C16: probe post status %d %s", code, body)
+			}
+			if !a.WaitIdle(3 * time.Second) {
+				return Case{}, fmt.Errorf("C16: collector did not become idle")
+			}
+			outcome := "discarded"
+			if a.Counter("peer_router_span") > spans0 {
+				probeHandled = append(probeHandled, cq.N(uint64(sid)))
+				outcome = "NOT discarded (handled as a span)"
+			}
+			if stressed {
+				probeAtStressed = true
+			}
+			ops = append(ops, cq.App("Probe", cq.N(uint64(sid)), cq.N(uint64(o.Tid)), cq.N(uint64(o.Key)), cq.N(uint64(o.Ds))))
+			human = append(human, fmt.Sprintf("probe %d trace#%d(ownerB=%v) arrives at A's peer router, A stressed=%v -> %s", sid, o.Tid, ownerB[o.Tid], stressed, outcome))
 		case "arr":
 			if o.Tid < 0 || o.Tid >= len(in.Tids) || o.Key < 0 || o.Key > 1 || o.Ds < 0 || o.Ds > 1 {
 				return Case{}, fmt.Errorf("C16: bad arr")
@@ -288,8 +318,8 @@ func c16Run(raw json.RawMessage) (Case, error) {
 		bc = append(bc, cq.N(0))
 	}
 
-	coq := fmt.Sprintf("{| c_seed := %s; c_rate := %s; c_tinfo := %s; c_ops := %s; c_events := %s; c_posts := %s; c_peer_collected := %s; c_fields_bad := %s |}",
-		cq.N(collect.VerifC16HashSeed), cq.N(in.Rate), cq.List(tinfo), cq.List(ops), cq.List(events), cq.List(posts), cq.List(bc), cq.List(fieldsBad))
+	coq := fmt.Sprintf("{| c_seed := %s; c_rate := %s; c_tinfo := %s; c_ops := %s; c_events := %s; c_posts := %s; c_peer_collected := %s; c_fields_bad := %s; c_probe_handled := %s |}",
+		cq.N(collect.VerifC16HashSeed), cq.N(in.Rate), cq.List(tinfo), cq.List(ops), cq.List(events), cq.List(posts), cq.List(bc), cq.List(fieldsBad), cq.List(probeHandled))
 	tags := []string{fmt.Sprintf("rate:%d", in.Rate)}
 	if probeMade {
 		tags = append(tags, "probe-created")
@@ -297,15 +327,24 @@ func c16Run(raw json.RawMessage) (Case, error) {
 	if lateAfterRelief {
 		tags = append(tags, "late-span-after-relief")
 	}
+	if probeAtStressed {
+		tags = append(tags, "probe-arrives-at-stressed-node")
+	}
 	if len(events) > 0 {
 		tags = append(tags, "some-drop-or-buffer")
 	}
 	key, _ := json.Marshal(in)
-	return Case{Coq: coq, Key: string(key), Nontriv: probeMade, Tags: tags,
+	return Case{Coq: coq, Key: string(key), Nontriv: probeMade || probeAtStressed, Tags: tags,
 		Summary: map[string]any{"rate": in.Rate, "schedule": human, "requests_received": postSum}}, nil
 }
 
-func c16SameFields(want, got map[string]any) bool {
+func c16SameFields(want0, got map[string]any) bool {
+	want := map[string]any{}
+	for k, v := range want0 {
+		if !strings.HasPrefix(k, "meta.") {
+			want[k] = v
+		}
+	}
 	if len(want) != len(got) {
 		return false
 	}
